@@ -3,6 +3,7 @@
 package mimetype
 
 import (
+	"bytes"
 	"errors"
 	"fmt"
 	"io"
@@ -23,6 +24,8 @@ type c05Case struct {
 	FaultAt     int    `json:"fault_at"`      // -1: none; else the reader fails once this many bytes were delivered
 	FaultData   bool   `json:"fault_with_data"`
 	File        bool   `json:"file"`
+	Prime       bool   `json:"prime,omitempty"` // a reader detection under PrevLimit runs immediately before
+	PrevLimit   uint32 `json:"prev_limit,omitempty"`
 }
 
 var errC05 = errors.New("verif: injected read error")
@@ -93,10 +96,15 @@ func c05IsErrMIME(m *MIME) bool {
 func c05Check(c c05Case) vfResult {
 	var r vfResult
 	x := []byte(c.X)
-	SetLimit(c.Limit)
 	defer SetLimit(defaultLimit)
+	if c.Prime {
+		SetLimit(c.PrevLimit)
+		_, _ = DetectReader(bytes.NewReader(x))
+		r.Labels = append(r.Labels, "primed")
+	}
+	SetLimit(c.Limit)
 	want := Detect(x)
-	r.Hash = vfHash(x, vfHashU(uint64(c.Limit), uint64(c.FaultAt+1), uint64(len(c.Chunks))), []byte(fmt.Sprint(c.Chunks, c.EOFWithData, c.FaultData, c.File)))
+	r.Hash = vfHash(x, vfHashU(uint64(c.Limit), uint64(c.FaultAt+1), uint64(len(c.Chunks))), []byte(fmt.Sprint(c.Chunks, c.EOFWithData, c.FaultData, c.File, c.Prime, c.PrevLimit)))
 	if c.File {
 		p := filepath.Join(vfScratchDir(), "c05.bin")
 		if err := os.WriteFile(p, x, 0o644); err != nil {
@@ -198,6 +206,10 @@ func c05Gen(t *rapid.T) c05Case {
 	}
 	if c.Limit > 1<<22 {
 		c.Limit = 1 << uint(rapid.IntRange(12, 22).Draw(t, "biglim"))
+	}
+	if rapid.Bool().Draw(t, "prime") {
+		c.Prime = true
+		c.PrevLimit = rapid.SampledFrom([]uint32{0, 1, 2, 16, 64, 512, 3072, 4096, 8192, 1 << 16, 1 << 20}).Draw(t, "prevlimit")
 	}
 	c.Chunks = rapid.SliceOfN(rapid.SampledFrom([]int{0, 1, 1, 2, 3, 7, 64, 512, 3072, 1 << 20}), 0, 5).Draw(t, "chunks")
 	c.EOFWithData = rapid.Bool().Draw(t, "eofdata")
